@@ -263,8 +263,7 @@ class Dispatcher:
         self._job_next_operation_index = [0] * self.instance.num_jobs
         self._job_next_available_time = [0] * self.instance.num_jobs
         self._cache = {}
-        for subscriber in self.subscribers:
-            subscriber.reset()
+        self._notify_subscribers(lambda subscriber: subscriber.reset())
 
     def dispatch(
         self, operation: Operation, machine_id: int | None = None
@@ -358,8 +357,23 @@ class Dispatcher:
         self._cache = {}
 
         # Notify subscribers
-        for subscriber in self.subscribers:
-            subscriber.update(scheduled_operation)
+        self._notify_subscribers(
+            lambda subscriber: subscriber.update(scheduled_operation)
+        )
+
+    def _notify_subscribers(
+        self, notify: Callable[[DispatcherObserver], None]
+    ) -> None:
+        """Notifies every subscriber once, in subscription order.
+
+        A copy of the list is iterated because an observer may unsubscribe
+        (itself or another observer) while it is being notified, which would
+        otherwise make the loop skip the next subscriber. Observers
+        unsubscribed before their turn are not notified.
+        """
+        for subscriber in list(self.subscribers):
+            if any(subscriber is current for current in self.subscribers):
+                notify(subscriber)
 
     def create_or_get_observer(
         self,
